@@ -19,6 +19,7 @@ import Robotools.Model.World
 import Robotools.Model.Parse
 import Robotools.Proofs.ParseLemmas
 import Robotools.Proofs.WfLemmas
+import Robotools.Proofs.Templates
 namespace Robotools.C09
 open Robotools
 
